@@ -222,6 +222,13 @@ func (d *intDecoder) decodeByte(buf []byte, cursor int64) ([]byte, int64, error)
 			for numTable[char(b, cursor)] {
 				cursor++
 			}
+			if cursor-start == 1 && char(b, start) == '-' {
+				// a minus sign without digits
+				if c := char(b, cursor); c != nul {
+					return nil, 0, errors.ErrInvalidCharacter(c, "number(integer)", cursor)
+				}
+				return nil, 0, errors.ErrUnexpectedEndOfJSON("number(integer)", cursor)
+			}
 			if isNonIntegerRest(char(b, cursor)) {
 				end := nonIntegerEnd(b, cursor)
 				return nil, 0, d.typeError(buf[start:end], end)
